@@ -147,8 +147,70 @@ def sequence_case(L, n_org, n_hum, with_boss, first):
     return h
 
 
+def hierarchy_case(L):
+    """a property hierarchy of depth 3 (Holds < Touches < Near, no inverses) on a class that has all three fields (Arm) and on
+    a class that has the sub-property and the grand-parent but not the middle one (Hand)"""
+
+    def h(ctx):
+        W.fresh_graph()
+        orgs = [W.Org(name=i) for i in range(2)]
+        subj = [W.Hand(name=10), W.Arm(name=11)]
+        objs = orgs + subj
+        facts, trace, assigned = set(), [], set()
+        v = {"no-exception": True}
+        try:
+            for s in range(L):
+                opts = []
+                for si in (2, 3):
+                    for oi in (0, 1):
+                        for fld in ("holds", "touches"):
+                            if hasattr(type(objs[si]), fld) and (fld, si) not in assigned:
+                                opts.append(("assign", fld, si, oi))
+                        opts.append(("append", "near", si, oi))
+                op = opts[ctx.choice("a%d" % s, len(opts))]
+                trace.append(op)
+                form, fld, si, oi = op
+                if form == "assign":
+                    setattr(objs[si], fld, objs[oi])
+                    assigned.add((fld, si))
+                else:
+                    getattr(objs[si], fld).append(objs[oi])
+                facts.add((fld, si, oi))
+        except Exception as e:
+            v["no-exception"] = False
+            ctx.observe("raised %s: %s" % (type(e).__name__, str(e)[:100]), [list(map(str, t)) for t in trace])
+            return v
+        # reference closure: a fact of a sub-property holds for every super-property the subject's class has a field for
+        SUPER = {"holds": ["touches", "near"], "touches": ["near"], "near": []}
+        expected = set(facts)
+        for (f, si, oi) in facts:
+            for sup in SUPER[f]:
+                if hasattr(type(objs[si]), sup):
+                    expected.add((sup, si, oi))
+        got = set()
+        for e in SymbolGraph()._instance_graph.edges():
+            got.add((e.wrapped_field.public_name if hasattr(e.wrapped_field, "public_name") else e.wrapped_field.name, index_of(objs, e.source.instance), index_of(objs, e.target.instance)))
+        ctx.observe([list(map(str, t)) for t in trace], sorted(got ^ expected))
+        ctx.note("nonempty", 1)
+        v["graph-holds-exactly-the-closure"] = got == expected
+        field_facts = set()
+        for i in (2, 3):
+            for fld in ("holds", "touches", "near"):
+                if hasattr(type(objs[i]), fld):
+                    val = getattr(objs[i], fld)
+                    for x in (val if isinstance(val, list) else [val] if val is not None else []):
+                        field_facts.add((fld, i, index_of(objs, x)))
+        # a single-valued field for which several values are derivable can hold only one of them: not compared
+        multi = {(f, s_) for (f, s_, o_) in expected if f in ("holds", "touches") and sum(1 for (g_, s2, o2) in expected if g_ == f and s2 == s_) > 1}
+        v["fields-agree-with-the-graph"] = {t for t in field_facts if (t[0], t[1]) not in multi} == {t for t in got if (t[0], t[1]) not in multi}
+        return v
+
+    return h
+
+
 def cases(tier, seed):
     cs = []
+    cs.append(Case("property hierarchy of depth 3 with a gap|L=%d" % (2 if tier == "quick" else 3), hierarchy_case(2 if tier == "quick" else 3), key="hierarchy-with-a-gap", reset=W.world_reset, validate=0, timeout=900, cex_grace=10**9))
     L = 3 if tier == "quick" else 4
     pops = [(2, 2, True), (3, 1, False)] if tier == "quick" else [(2, 2, True), (3, 2, True), (4, 1, False)]
     for (n_org, n_hum, boss) in pops:
@@ -172,7 +234,7 @@ def describe(tier):
     return dict(
         rule="sequences of %d assertions (bounded symbolic choices of subject, object, property and write form: single-valued assignment, container assignment, append/add) "
         "over a population of orgs, humans and a boss role (harness ontology: WorksFor < MemberOf, Member inverse of MemberOf, HeadOf < WorksFor living on the role taker, "
-        "transitive SubOrgOf) - all orders, diamonds and cycles within the bound; the relations in the real SymbolGraph must equal a reference fixpoint closure of the "
+        "transitive SubOrgOf; and Holds < Touches < Near without inverses on a class with all three fields and on one without the middle field) - all orders, diamonds and cycles within the bound; the relations in the real SymbolGraph must equal a reference fixpoint closure of the "
         "asserted facts and every managed field must hold exactly (as a set) the graph's outgoing relations for that field (multiplicities in list fields are C16's subject). non-trivial = every path asserts facts" % L,
         bounds=dict(sequence_length=L, population="2 orgs + 2 humans + boss, 3 orgs + 1 human (quick); up to 4 orgs (thorough)"),
         outside=["re-assignment of a single-valued field (the earlier relation stays in the graph; the property does not say which wins)", "sequences longer than %d" % L],
